@@ -7,7 +7,9 @@ Streams (all cases are one line; texts are hex-encoded byte strings `x<hex>`):
   graph / graphdef / gbytes    Graph::serialize / Graph(buffer)
 The tag of a mesh case is the generator's expectation (ignored by harness and model):
   A must be accepted, R must be rejected with a documented exception, U either (but never a crash),
-  K<n> input of a known-defect class (FINDINGS_C11.md): documented outcome or the recorded defect outcome.
+  K<digits> input in which `hazardous()` recognises defect classes of KNOWN_FINDINGS.json ("c11-edge:K<n>"); it is judged
+  like any other case (classes 4/5 must be rejected); `signature()` maps a failure to its class only if the class explains
+  the kind of failure - everything else gets a "c11-new:" signature and is a VIOLATION.
 """
 import binascii
 import json
@@ -934,7 +936,7 @@ def outcome_class(out):
         return "notype"
     h = out.split(":")[0]
     if h == "SANITIZER":
-        return "sanitizer"
+        return "sanitizer-asan" if out.startswith("SANITIZER:asan") else "sanitizer-ubsan"
     if h == "TIMEOUT":
         return "timeout"
     if h in ("ABORT", "SIGNAL", "EXIT"):
@@ -944,24 +946,21 @@ def outcome_class(out):
     return "garbled"
 
 
-K_ALLOWED = {
-    # class digit -> defect outcomes recorded in FINDINGS_C11.md (besides any documented outcome)
-    "1": ("abort", "timeout", "other-exception", "sanitizer", "rterr"),
+CRASH = ("abort", "timeout", "other-exception", "sanitizer-asan", "sanitizer-ubsan", "garbled")
+
+# defect class (FINDINGS_C11.md / KNOWN_FINDINGS.json "c11-edge:K<n>") -> the failure kinds that class explains.
+# Used by `signature` only: the oracle judges every case against the property text; a failure whose kind is not
+# explained by a class recognised in the *input* gets a "c11-new:" signature and is a VIOLATION.
+K_KINDS = {
+    "1": ("abort", "timeout", "other-exception", "sanitizer-asan", "sanitizer-ubsan"),
     "2": ("abort",),
-    "3": ("sanitizer", "abort"),
-    "4": (),
-    "5": (),
+    "3": ("sanitizer-asan", "abort"),
     "6": ("rterr",),
-    "9": ("sanitizer",),
+    "9": ("sanitizer-ubsan",),
+    "4": ("accepted",),
+    "5": ("accepted",),
 }
-
-
-def k_allowed(tag):
-    r = set()
-    if tag.startswith("K"):
-        for d in tag[1:]:
-            r |= set(K_ALLOWED.get(d, ()))
-    return r
+K_ORDER = "1236945"
 
 
 def first_content_line(text):
@@ -988,13 +987,12 @@ def oracle_mesh(case, out):
             STATS["malformed_reached_content"] += 1
     if tag.startswith("K"):
         STATS["known_defect_inputs"][tag] = STATS["known_defect_inputs"].get(tag, 0) + 1
-        if cls in k_allowed(tag):
-            return None
-    if cls in ("sanitizer", "timeout", "abort", "other-exception", "garbled"):
+    if cls in CRASH:
         return "memory error / hang / undocumented termination: " + out[:120]
     if cls == "notype":
         return None
-    if tag == "R":
+    # classes 4/5 are inputs with an out-of-range / syntactically malformed number: they must be rejected
+    if tag == "R" or (tag.startswith("K") and set(tag[1:]) & set("45")):
         STATS["must_reject"] += 1
         if cls == "ok":
             return "input violating its declared counts/dimensions/index ranges/syntax was accepted"
@@ -1008,8 +1006,6 @@ def oracle_mesh(case, out):
     if not rt:
         return "no round-trip verdict in output"
     if rt.startswith("ERR"):
-        if "rterr" in k_allowed(tag):
-            return None
         return "the writer's output of an accepted file is rejected by the reader:" + rt
     flags = rt.split()
     if tag == "A":
@@ -1065,7 +1061,7 @@ def check_dump_wf(dump):
 
 def oracle_scan(case, out):
     cls = outcome_class(out)
-    if cls in ("sanitizer", "timeout", "abort", "other-exception", "garbled", "notype"):
+    if cls in CRASH or cls == "notype":
         return "scanner: memory error / hang / undocumented termination: " + out[:120]
     if case in EXPECT and out != EXPECT[case]:
         return "scanner events differ from the generated document: got %s expected %s" % (out[:300], EXPECT[case][:300])
@@ -1074,7 +1070,7 @@ def oracle_scan(case, out):
 
 def oracle_ini(case, out):
     cls = outcome_class(out)
-    if cls in ("sanitizer", "timeout", "abort", "other-exception", "garbled", "notype"):
+    if cls in CRASH or cls == "notype":
         return "property map: memory error / hang / undocumented termination: " + out[:120]
     if cls != "ok":
         if case in EXPECT:
@@ -1096,16 +1092,14 @@ def oracle_ini(case, out):
     if rt.split() != ["1", "1"]:
         if inadm:
             STATS["known_defect_inputs"]["K7"] = STATS["known_defect_inputs"].get("K7", 0) + 1
-            return None
-        return "property map second generation differs:" + rt
+        return "property map second generation differs%s:%s" % (" [key '[..' with value '..]']" if inadm else "", rt)
     if case in EXPECT and dump != EXPECT[case]:
         return "parsed property tree differs: got %s expected %s" % (dump[:300], EXPECT[case][:300])
     return None
 
 
 def oracle_graph(case, out):
-    cls = outcome_class(out)
-    if cls != "garbled":
+    if not (out.startswith("B ") or out.startswith("G ")):
         return "graph serialisation ended with " + out[:100]
     t = case.split()
     o = out.split()
@@ -1144,7 +1138,6 @@ def oracle_graph(case, out):
             if o[q + 1] != "1":
                 if n_dom == 0 and t[0] == "graph":
                     STATS["known_defect_inputs"]["K8"] = STATS["known_defect_inputs"].get("K8", 0) + 1
-                    return None
                 return "re-serialising the deserialised graph does not reproduce the bytes"
             return None
         if t[0] == "gbytes":
@@ -1224,7 +1217,9 @@ def canon(out):
     h = out.split(":")[0]
     if out.startswith("ABORT:Q:_transcendental"):
         return "QTRANS"      # harness limitation: the chart needs sin/cos at parse time, not available in exact arithmetic
-    if h in ("ABORT", "EXC", "SIGNAL", "SANITIZER", "EXIT"):
+    if h == "SANITIZER":
+        return "SANITIZER:asan" if out.startswith("SANITIZER:asan") else "SANITIZER:ubsan"
+    if h in ("ABORT", "EXC", "SIGNAL", "EXIT"):
         return h
     return out
 
@@ -1252,8 +1247,32 @@ def describe(case):
     return keys
 
 
+def failure_kind(out, why):
+    cls = outcome_class(out)
+    if cls in CRASH:
+        return cls
+    if why and why.startswith("the writer's output"):
+        return "rterr"
+    if why and why.startswith("input violating"):
+        return "accepted"
+    return "other"
+
+
 def signature(case, out, why):
-    return "%s:%s" % (case.split(" ", 1)[0], (why or "")[:40])
+    """stable id of the defect class (KNOWN_FINDINGS.json): the class must be recognised in the input *and* explain the
+    kind of failure; anything else is new"""
+    t = case.split(" ", 2)
+    op = t[0]
+    if op == "mesh" and t[1].startswith("K"):
+        kind = failure_kind(out, why)
+        for d in K_ORDER:
+            if d in t[1][1:] and kind in K_KINDS[d]:
+                return "c11-edge:K" + d
+    if op == "ini" and why and why.startswith("property map second generation differs [key"):
+        return "c11-edge:K7"
+    if op == "graph" and why and why.startswith("re-serialising") and case.split()[2] == "0":
+        return "c11-edge:K8"
+    return "c11-new:%s:%s" % (op, (why or "")[:40])
 
 
 def model_filter(case):
@@ -1294,6 +1313,11 @@ def corpus_cases():
         ("K3", H + M + part(mp0.replace("3", "1") + '<Mapping dim="1">\n7\n</Mapping>\n', 'topology="parent" size="2 1"') + E),
         ("K6", H + '<Mesh type="conformal:hypercube:2:2" size="4 0 1">\n<Vertices>\n0 0\n1 0\n0 1\n1 1\n</Vertices>\n'
                '<Topology dim="1">\n</Topology>\n<Topology dim="2">\n0 1 2 3\n</Topology>\n</Mesh>\n' + E),
+        ("K9", H + M + '<Partition size="3 1">\n<Patch rank="0" size="0">\n</Patch>\n</Partition>\n' + E),
+        ("K9", H + M + '<Partition size="2 4" />\n' + E),
+        ("K4", H + M + part('<Mapping dim="0">\n-1\n</Mapping>\n', 'topology="none" size="1"') + E),
+        ("K5", H + M.replace("0 1 2 3\n", "0 1 2 3x\n") + E),
+        ("K5", H + M.replace('size="4 4 1"', 'size="4x 4 1"') + E),
         ("A", H + '<Chart name="c">\n<Circle radius="1" midpoint="0 0" domain="0 1" />\n</Chart>\n' + M +
               part(mp0, 'chart="c" topology="none" size="2"') + E),
         ("R", H + M + part(mp0, 'chart="nochart" topology="none" size="2"') + E),
